@@ -120,7 +120,7 @@ def plan(tier, seed):
             cases.append({'kind': 'combo', 'backend': b, 'solver': solver, 'vec': False, 'delay': False, 'family': 'main',
                           'cseed': rnd.randrange(1 << 30), 'near_miss': True})
     kinds = ['misspelt_edge_paths', 'misspelt_output_paths', 'misspelt_input_paths', 'misspelt_update_paths', 'removed_variable',
-             'reserved_names', 'two_outputs', 'cyclic_node', 'missing_operator_value', 'population_param_missing_variable', 'edge_values_missing_edge']
+             'reserved_names', 'two_outputs', 'cyclic_node', 'missing_operator_value', 'population_param_missing_variable', 'edge_values_missing_edge', 'unknown_backend', 'overlong_path']
     opened = open_risks(PID)
     n = 24 if tier == 'quick' else 500
     for k in kinds:
@@ -439,6 +439,34 @@ def malformed_case(case, ctx, rnd, mech, res):
         c = CircuitTemplate(name='c', nodes={'n': NodeTemplate(name='nn', operators=ops)})
         mech[kind] = 1
         return expect_raise(lambda: c.get_run_func('f', step_size=dt, vectorize=rnd.random() < 0.5, verbose=False), "cyclic operator graph inside a node")
+    if kind == 'unknown_backend':
+        # a backend name that is none of the available ones (case variants, typos, white space)
+        name = rnd.choice(['Fortran', 'FORTRAN', 'Torch', 'Jax', 'JAX', 'numpy ', 'nunpy', 'tensorflow', 'Default', 'fortran90', 'torch2'])
+        vec = rnd.random() < 0.5
+        res['sample']['mutation'] = name
+        mech[kind] = 1
+
+        def f():
+            t, _ = build.build_python(spec)
+            if rnd.random() < 0.5:
+                return t.get_run_func('f', step_size=dt, vectorize=vec, verbose=False, backend=name)
+            k0 = list(ref.state_keys)[0]
+            return t.run(simulation_time=3 * dt, step_size=dt, outputs={'o': '/'.join(k0)}, vectorize=vec, verbose=False, backend=name)
+        return expect_raise(f, f"backend name {name!r} is not an available backend")
+    if kind == 'overlong_path':
+        # an output / update path with one component too many (an extra wildcard or an extra name in front of the node)
+        k0 = rnd.choice(list(ref.state_keys))
+        parts = k0[0].split('/')
+        how = rnd.choice(['extra_all', 'extra_all_wild', 'extra_name'])
+        if how == 'extra_all':
+            bad = '/'.join(['all'] + parts + [k0[1], k0[2]])
+        elif how == 'extra_all_wild':
+            bad = '/'.join(['all'] * (len(parts) + 1) + [k0[1], k0[2]])
+        else:
+            bad = '/'.join(parts + [parts[-1]] + [k0[1], k0[2]])
+        res['sample']['mutation'] = bad
+        mech[kind] = 1
+        return expect_raise(run_with(spec, outputs={'o': bad}), f"output path {bad} is longer than the hierarchy (no such variable)")
     if kind == 'edge_values_missing_edge':
         # edge_values (apply / get_run_func / run) addressed to an edge that does not exist
         es = [e for e in ref.edges if not e.get('et')]
